@@ -70,9 +70,10 @@ Matched ==
                  /\ seen' = [seen EXCEPT ![Ev.a] = @ + 1]
                  /\ i' = i + 1 /\ UNCHANGED <<tid, vars>>
   \/ Is("wfd")   /\ quit /\ i' = i + 1 /\ UNCHANGED <<tid, seen, vars>>
-  \* final census: which goroutines of the peer are left, every signal that
+  \* final census: which goroutines of the peer are left (and blocked), every signal that
   \* was sent has been received, and what the public getters report
   \/ Is("end")   /\ UnfinishedAt = Ev.l
+                 /\ ~ENABLED Internal          \* the run is over: nothing is left that could still move
                  /\ (\A m \in AllMsgs : seen[m] = doneCnt[m])
                  /\ Ev.a = nego
                  /\ Ev.b = (IF versionKnown THEN "K" ELSE "k") \o (IF verAck THEN "A" ELSE "a")
